@@ -84,6 +84,11 @@ func HarnessC17Forward() {
 		vrt.Assert(len(outbox.calls) == 1 && outbox.calls[0].topic == defaultForwarderTopic && len(outbox.calls[0].msgs) == 1, "one envelope goes to the forwarder topic")
 		consumed = outbox.calls[0].msgs[0]
 		vrt.Assert(consumed.Context().Value(ctxKey{}) == "v", "the envelope carries the message context")
+		if vrt.Bool("envelope.message.has.metadata.of.its.own") {
+			// the transport (a publisher decorator, a requeuer, a delay component) stamped the envelope message itself:
+			// none of that belongs to the wrapped message
+			consumed.Metadata.Set(vrt.Str("transport.key"), "stamped-in-transit")
+		}
 		if vrt.Bool("another.publish.before.forwarding") {
 			// the outbox keeps what it was given (like a persistent or asynchronous Pub/Sub): a later Publish through
 			// the same forwarder publisher must not disturb the envelope published before
